@@ -304,6 +304,24 @@ func C15(run *hx.Run) {
 			{"user-version", 63, 9, false}, {"application-id", 70, 1, false}, {"freelist-count", 39, 77, false},
 		}
 		for _, sw := range swaps {
+			// a handle that was opened on the valid file and not used before the header changed: its very first
+			// transaction has to re-read the header as well
+			if sw.refused {
+				pg0 := hx.NewMemPager(append([]byte{}, b.img...))
+				if h0, err := openMem(pg0); err == nil {
+					pg0.Data[sw.off] = sw.val
+					binary.BigEndian.PutUint32(pg0.Data[24:], binary.BigEndian.Uint32(pg0.Data[24:])+1)
+					var r0 c15Result
+					p, pm := safely(func() { r0 = c15ReadHandle(h0, b.tables, b.index) })
+					run.Eval(1)
+					run.DistinctN(1)
+					if p {
+						run.Violation("C15/reread/"+sw.name+"/unused-handle/panic", pm, nil)
+					} else if r0.rows > 0 {
+						run.Violation("C15/reread/"+sw.name+"/unused-handle/not-refused", fmt.Sprintf("header changed to %s between Open and the first call on the handle: that first transaction delivered %d rows", sw.name, r0.rows), hx.M{"swap": sw.name, "page_size": b.ps})
+					}
+				}
+			}
 			for _, bump := range []bool{true, false} {
 				img := append([]byte{}, b.img...)
 				pg := hx.NewMemPager(img)
